@@ -74,8 +74,12 @@ class ArithmeticCrossover(VariationalOperator):
                 break
             if np.random.rand() < self.probability:
                 alpha = np.random.rand()
-                new_genomes[i] = alpha * genomes[i] + (1 - alpha) * genomes[i + 1]
-                new_genomes[i + 1] = (1 - alpha) * genomes[i] + alpha * genomes[i + 1]
+                # Rounding must not push a convex combination (one ulp) outside the segment spanned by its parents,
+                # otherwise children of two parents lying on a face of the box leave the box.
+                lower = np.minimum(genomes[i], genomes[i + 1])
+                upper = np.maximum(genomes[i], genomes[i + 1])
+                new_genomes[i] = np.clip(alpha * genomes[i] + (1 - alpha) * genomes[i + 1], lower, upper)
+                new_genomes[i + 1] = np.clip((1 - alpha) * genomes[i] + alpha * genomes[i + 1], lower, upper)
             else:
                 new_genomes[i] = genomes[i]
                 new_genomes[i + 1] = genomes[i + 1]
